@@ -75,12 +75,21 @@ func (ci *ContractInvocation) EncodeBinaryWithContext(w *io.BinWriter, sc *stack
 // MarshalJSON implements the json.Marshaler interface.
 func (ci ContractInvocation) MarshalJSON() ([]byte, error) {
 	var item []byte
-	if ci.Arguments == nil && ci.argumentsBytes != nil {
+	args := ci.Arguments
+	if args == nil && ci.argumentsBytes != nil {
 		si, err := stackitem.Deserialize(ci.argumentsBytes)
 		if err != nil {
 			return nil, err
 		}
-		item, err = stackitem.ToJSONWithTypes(si.(*stackitem.Array))
+		arr, ok := si.(*stackitem.Array)
+		if !ok {
+			return nil, fmt.Errorf("invocation arguments are %s, not an array", si.Type())
+		}
+		args = arr
+	}
+	if args != nil {
+		var err error
+		item, err = stackitem.ToJSONWithTypes(args)
 		if err != nil {
 			item = nil
 		}
